@@ -91,33 +91,39 @@ structure Obs where
 
 def b2r (b : Bool) : Rat := if b then 1 else 0
 
+/-- the reference row of observation (reference row `r`, time `j`) of the single-ended fit -/
+def refObsS (inp : Input) (j r : Nat) : Obs :=
+  let i := inp.ixSec.getD r 0
+  let att : List (Nat × Rat) :=
+    if inp.alphaMode then [(inp.colA i, -1)] else [(colDalpha, -(inp.xAt i))]
+  let ta := (List.range inp.nta).filterMap fun a =>
+    if inp.downSec a r then some (inp.colTa a j, (-1 : Rat)) else none
+  -- the code ravels `w` location-major although the rows are time-major
+  let v := if inp.codeWeightOrder then
+      let flat := j * inp.ixSec.size + r
+      inp.vF.at (inp.ixSec.getD (flat / inp.nt) 0) (flat % inp.nt)
+    else inp.vF.at i j
+  ⟨[(colGamma, inp.invK r j)] ++ att ++ [(inp.colC j, -1)] ++ ta, inp.iF.at i j, v⟩
+
+/-- the matching row of pair `pi` at time `j` of the single-ended fit -/
+def matObsS (inp : Input) (j pi : Nat) : Obs :=
+  let (h, t) := inp.pairs.getD pi (0, 0)
+  let ta := (List.range inp.nta).filterMap fun a =>
+    let s := inp.trans.getD a 0
+    let cf := b2r (decide (inp.xAt t ≥ s)) - b2r (decide (inp.xAt h ≥ s))
+    if cf = 0 then none else some (inp.colTa a j, cf)
+  let v := if inp.codeWeightOrder then
+      let flat := j * inp.pairs.size + pi
+      let (h', t') := inp.pairs.getD (flat / inp.nt) (0, 0)
+      inp.vF.at h' (flat % inp.nt) + inp.vF.at t' (flat % inp.nt)
+    else inp.vF.at h j + inp.vF.at t j
+  ⟨[(colDalpha, inp.xAt t - inp.xAt h)] ++ ta, inp.iF.at h j - inp.iF.at t j, v⟩
+
 /-- single-ended observations: reference rows (time-major), then matching rows -/
 def obsSingle (inp : Input) : List Obs :=
-  let ref := (List.range inp.nt).flatMap fun j => (List.range inp.ixSec.size).map fun r =>
-    let i := inp.ixSec.getD r 0
-    let att : List (Nat × Rat) :=
-      if inp.alphaMode then [(inp.colA i, -1)] else [(colDalpha, -(inp.xAt i))]
-    let ta := (List.range inp.nta).filterMap fun a =>
-      if inp.downSec a r then some (inp.colTa a j, (-1 : Rat)) else none
-    -- the code ravels `w` location-major although the rows are time-major
-    let v := if inp.codeWeightOrder then
-        let flat := j * inp.ixSec.size + r
-        inp.vF.at (inp.ixSec.getD (flat / inp.nt) 0) (flat % inp.nt)
-      else inp.vF.at i j
-    (⟨[(colGamma, inp.invK r j)] ++ att ++ [(inp.colC j, -1)] ++ ta, inp.iF.at i j, v⟩ : Obs)
+  let ref := (List.range inp.nt).flatMap fun j => (List.range inp.ixSec.size).map (inp.refObsS j)
   let mat := if inp.alphaMode then [] else
-    (List.range inp.nt).flatMap fun j => (List.range inp.pairs.size).map fun pi =>
-      let (h, t) := inp.pairs.getD pi (0, 0)
-      let ta := (List.range inp.nta).filterMap fun a =>
-        let s := inp.trans.getD a 0
-        let cf := b2r (decide (inp.xAt t ≥ s)) - b2r (decide (inp.xAt h ≥ s))
-        if cf = 0 then none else some (inp.colTa a j, cf)
-      let v := if inp.codeWeightOrder then
-          let flat := j * inp.pairs.size + pi
-          let (h', t') := inp.pairs.getD (flat / inp.nt) (0, 0)
-          inp.vF.at h' (flat % inp.nt) + inp.vF.at t' (flat % inp.nt)
-        else inp.vF.at h j + inp.vF.at t j
-      (⟨[(colDalpha, inp.xAt t - inp.xAt h)] ++ ta, inp.iF.at h j - inp.iF.at t j, v⟩ : Obs)
+    (List.range inp.nt).flatMap fun j => (List.range inp.pairs.size).map (inp.matObsS j)
   ref ++ mat
 
 /-- locations whose `A` is a free parameter of the double-ended fit: reference ∪ matched, minus the first reference
@@ -133,18 +139,24 @@ def matchNotCal (inp : Input) : List Nat :=
 def aTerm (inp : Input) (i : Nat) (cf : Rat) : List (Nat × Rat) :=
   if i = inp.r0 then [] else [(inp.colA i, cf)]
 
+/-- forward row of observation (reference row `r`, time `j`) of the double-ended fit -/
+def fwObsD (inp : Input) (r j : Nat) : Obs :=
+  let i := inp.ixSec.getD r 0
+  let ta := (List.range inp.nta).filterMap fun a =>
+    if inp.downSec a r then some (inp.colTaD a 0 j, (-1 : Rat)) else none
+  ⟨[(colGamma, inp.invK r j), (colDf j, -1)] ++ inp.aTerm i (-1) ++ ta, inp.iF.at i j, inp.vF.at i j⟩
+
+/-- backward row of observation (reference row `r`, time `j`) -/
+def bwObsD (inp : Input) (r j : Nat) : Obs :=
+  let i := inp.ixSec.getD r 0
+  let ta := (List.range inp.nta).filterMap fun a =>
+    if !inp.downSec a r then some (inp.colTaD a 1 j, (-1 : Rat)) else none
+  ⟨[(colGamma, inp.invK r j), (inp.colDb j, -1)] ++ inp.aTerm i 1 ++ ta, inp.iB.at i j, inp.vB.at i j⟩
+
 /-- double-ended observations: forward rows, backward rows (location-major), EQ1, EQ2, EQ3 -/
 def obsDouble (inp : Input) : List Obs :=
-  let fw := (List.range inp.ixSec.size).flatMap fun r => (List.range inp.nt).map fun j =>
-    let i := inp.ixSec.getD r 0
-    let ta := (List.range inp.nta).filterMap fun a =>
-      if inp.downSec a r then some (inp.colTaD a 0 j, (-1 : Rat)) else none
-    (⟨[(colGamma, inp.invK r j), (colDf j, -1)] ++ inp.aTerm i (-1) ++ ta, inp.iF.at i j, inp.vF.at i j⟩ : Obs)
-  let bw := (List.range inp.ixSec.size).flatMap fun r => (List.range inp.nt).map fun j =>
-    let i := inp.ixSec.getD r 0
-    let ta := (List.range inp.nta).filterMap fun a =>
-      if !inp.downSec a r then some (inp.colTaD a 1 j, (-1 : Rat)) else none
-    (⟨[(colGamma, inp.invK r j), (inp.colDb j, -1)] ++ inp.aTerm i 1 ++ ta, inp.iB.at i j, inp.vB.at i j⟩ : Obs)
+  let fw := (List.range inp.ixSec.size).flatMap fun r => (List.range inp.nt).map (inp.fwObsD r)
+  let bw := (List.range inp.ixSec.size).flatMap fun r => (List.range inp.nt).map (inp.bwObsD r)
   let eq1 := inp.pairs.toList.flatMap fun ht => (List.range inp.nt).map fun j =>
     let (h, t) := ht
     let ta := (List.range inp.nta).filterMap fun a =>
